@@ -109,10 +109,11 @@ class Analysis:
         "core::convert::num::<impl core::convert::From<bool> for usize>::from": (0, 1),
     }
 
-    def __init__(self, view, arg_intervals=None, summaries=None):
+    def __init__(self, view, arg_intervals=None, summaries=None, ret_len=None):
         self.v = view
         self.body = view.body
         self.summaries = summaries or {}
+        self.ret_len = ret_len     # callback: (callee key, call terminator, analysis) -> interval of returned slice length
         self.arg_intervals = arg_intervals or {}
         self.nl = view.nlocals
         self.rng = []
@@ -856,6 +857,15 @@ class Analysis:
                     st.iv[ks] = (start[0], max(start[1], end[1]))
                 else:
                     st.iv.pop(ks, None)
+        elif name in ("core::slice::raw::from_raw_parts", "core::slice::raw::from_raw_parts_mut") and len(args) == 2:
+            n_iv, _ = self.eval_operand(st, args[1])
+            if n_iv is not None:
+                ref_len = ("iv", n_iv)
+        elif self.ret_len is not None and name in self.v.prog.bodies and self.pointee_ty(d) is not None \
+                and self.pointee_ty(d)["k"] == "slice":
+            n_iv = self.ret_len(name, t, self)
+            if n_iv is not None:
+                ref_len = ("iv", n_iv)
         elif name in ("core::slice::<impl [T]>::split_at", "core::slice::<impl [T]>::split_at_mut") \
                 and len(args) == 2 and a0_local is not None:
             mid, _ = self.eval_operand(st, args[1])
@@ -1166,6 +1176,25 @@ class Analysis:
                     if s not in inwork:
                         work.append(s)
                         inwork.add(s)
+
+    def return_len(self):
+        """Interval of the length of the slice reference this function returns (None if unknown)."""
+        pt = self.pointee_ty(0)
+        if pt is None or pt["k"] != "slice":
+            return None
+        out = None
+        for b in self.v.return_blocks():
+            st = self.state_before_term(b)
+            if st is None:
+                continue
+            lk = self.len_key(0, st)
+            if lk is None:
+                return None
+            iv = (lk[1], lk[1]) if lk[0] == "const" else st.iv.get(lk)
+            if iv is None:
+                return None
+            out = iv if out is None else join(out, iv)
+        return out
 
     # ------------------------------------------------------------------ queries
     def state_before_term(self, bi):
